@@ -29,6 +29,12 @@ type syncOpt struct {
 	Recv     fsutil.ReceiveOpt
 	Timeout  time.Duration
 	Progress func(int, bool)
+	// TeardownWhenStuck: when the session becomes quiescent the harness tears
+	// the stream down (once) and keeps waiting; only quiescence AFTER the
+	// teardown is a deadlock (C04: "return once the stream is torn down").
+	TeardownWhenStuck bool
+	// OnPair is called with the pair before the calls start.
+	OnPair func(p *wire.Pair)
 	// SendFn / RecvFn override the real calls (reference peers).
 	SendFn func(ctx context.Context, s fsutil.Stream) error
 	RecvFn func(ctx context.Context, s fsutil.Stream) error
@@ -45,6 +51,10 @@ type syncRes struct {
 	Deadlock                                       bool
 	Dump                                           string
 	SendDoneBeforeTeardown, RecvDoneBeforeTeardown bool
+	// StuckUntilTeardown: the session was quiescent before the harness tore
+	// the stream down (diagnostic, allowed by C04).
+	StuckUntilTeardown bool
+	StuckDump          string
 }
 
 // runSync models the life cycle of a gRPC bidi stream: when the sender (the
@@ -56,6 +66,9 @@ func runSync(o syncOpt) *syncRes {
 	res := &syncRes{Pair: p}
 	if o.Timeout == 0 {
 		o.Timeout = 60 * time.Second
+	}
+	if o.OnPair != nil {
+		o.OnPair(p)
 	}
 	sendFn, recvFn := o.SendFn, o.RecvFn
 	if sendFn == nil {
@@ -134,9 +147,19 @@ func runSync(o syncOpt) *syncRes {
 				continue
 			}
 			if ok, dump := core.Quiescent(3, 40*time.Millisecond, nil); ok && len(sd) == 0 && len(rd) == 0 {
+				if o.TeardownWhenStuck && !res.StuckUntilTeardown {
+					res.StuckUntilTeardown = true
+					res.SendDoneBeforeTeardown, res.RecvDoneBeforeTeardown = res.SendDone, res.RecvDone
+					res.StuckDump = dump
+					p.Teardown()
+					idle = 0
+					continue
+				}
 				res.Deadlock = true
 				res.Dump = dump
-				res.SendDoneBeforeTeardown, res.RecvDoneBeforeTeardown = res.SendDone, res.RecvDone
+				if !res.StuckUntilTeardown {
+					res.SendDoneBeforeTeardown, res.RecvDoneBeforeTeardown = res.SendDone, res.RecvDone
+				}
 				p.Teardown()
 				collect(10 * time.Second)
 				return res
